@@ -104,21 +104,41 @@ impl<T> OffsetArc<T> {
     where
         T: Clone,
     {
+        // Stores the possibly-replaced arc back into `slot` when it goes out of
+        // scope, on unwinding too: `Arc::make_mut()` may panic in the clone impl
+        // (nothing has changed then), but also after it has already released the
+        // old allocation, when the old value's destructor panics.
+        struct WriteBack<'a, T> {
+            slot: &'a mut OffsetArc<T>,
+            arc: ManuallyDrop<Arc<T>>,
+        }
+
+        impl<'a, T> Drop for WriteBack<'a, T> {
+            fn drop(&mut self) {
+                unsafe {
+                    // This does not modify the refcount or call drop on `slot`
+                    let arc = ManuallyDrop::take(&mut self.arc);
+                    ptr::write(self.slot, Arc::into_raw_offset(arc));
+                }
+            }
+        }
+
         unsafe {
             // extract the OffsetArc as an owned variable. This does not modify
             // the refcount and we should be careful to not drop `this`
             let this = ptr::read(self);
             // treat it as a real Arc, but wrapped in a ManuallyDrop
-            // in case `Arc::make_mut()` panics in the clone impl
-            let mut arc = ManuallyDrop::new(Arc::from_raw_offset(this));
+            let mut guard = WriteBack {
+                arc: ManuallyDrop::new(Arc::from_raw_offset(this)),
+                slot: self,
+            };
             // obtain the mutable reference. Cast away the lifetime since
             // we have the right lifetime bounds in the parameters.
-            // This may mutate `arc`.
-            let ret = Arc::make_mut(&mut *arc) as *mut _;
+            // This may mutate `guard.arc`.
+            let ret = Arc::make_mut(&mut *guard.arc) as *mut _;
             // Store the possibly-mutated arc back inside, after converting
-            // it to a OffsetArc again. Release the ManuallyDrop.
-            // This also does not modify the refcount or call drop on self
-            ptr::write(self, Arc::into_raw_offset(ManuallyDrop::into_inner(arc)));
+            // it to a OffsetArc again.
+            drop(guard);
             &mut *ret
         }
     }
